@@ -677,3 +677,118 @@ Proof.
   intros Wu Wv. split; [apply url_eq_same_hash_input|]. intros E. rewrite (url_string_injective u v Wu Wv E).
   unfold url_eqb. rewrite !list_eqb_refl'. reflexivity.
 Qed.
+
+(* ---- DIDUrl::join ---- *)
+(* what the base (the string form of a well-formed value) parses to *)
+Lemma wf_url_parts u : wf_url u -> exists p oq of,
+  wf_parts (u_method u) (u_mid u) p oq of /\ did_url_to_string u = url_text (u_method u) (u_mid u) p oq of
+  /\ u_path u = opt_nonempty p /\ u_query u = option_map (cons 63) oq /\ u_frag u = option_map (cons 35) of.
+Proof.
+  intros [Ed [Nm [Cm [Ni [Ci [Wp [Wq Wf]]]]]]].
+  destruct u as [d m i up uq uf]. cbn [u_did u_method u_mid u_path u_query u_frag] in *.
+  exists (oapp up), (match uq with Some (_ :: t) => Some t | _ => None end), (match uf with Some (_ :: t) => Some t | _ => None end).
+  assert (up = opt_nonempty (oapp up)) as Ep.
+  { destruct up as [x|]; [|reflexivity]. destruct (Wp x eq_refl) as [t [-> _]]. reflexivity. }
+  assert (uq = option_map (cons 63) (match uq with Some (_ :: t) => Some t | _ => None end)) as Eq.
+  { destruct uq as [x|]; [|reflexivity]. destruct (Wq x eq_refl) as [t [-> _]]. reflexivity. }
+  assert (uf = option_map (cons 35) (match uf with Some (_ :: t) => Some t | _ => None end)) as Ef.
+  { destruct uf as [x|]; [|reflexivity]. destruct (Wf x eq_refl) as [t [-> _]]. reflexivity. }
+  split.
+  - constructor; auto.
+    + destruct up as [x|]; [|left; reflexivity]. right. exact (Wp x eq_refl).
+    + intros q Hq. destruct uq as [x|]; [|discriminate]. destruct (Wq x eq_refl) as [t [-> [Nt [Ct St]]]]. inversion Hq; subst q. auto.
+    + intros f Hf. destruct uf as [x|]; [|discriminate]. destruct (Wf x eq_refl) as [t [-> [Nt Ct]]]. inversion Hf; subst f. auto.
+  - split; [|auto]. unfold did_url_to_string, url_text. cbn [u_did u_path u_query u_frag]. rewrite Ed, <- !app_assoc.
+    destruct uq as [[|? ?]|]; destruct uf as [[|? ?]|]; try reflexivity;
+      try (destruct (Wq _ eq_refl) as [t [X _]]; discriminate); try (destruct (Wf _ eq_refl) as [t [X _]]; discriminate);
+      cbn [option_map] in Eq, Ef; try (inversion Eq; subst); try (inversion Ef; subst); reflexivity.
+Qed.
+
+(* join never touches the DID part, and whatever it returns (percent-free) is well formed, hence re-parses to itself *)
+Theorem join_sound u seg j : wf_url u -> did_url_join u seg = Ok j ->
+  u_did j = u_did u /\ u_method j = u_method u /\ u_mid j = u_mid u
+  /\ (no_pct (did_url_to_string j) = true -> wf_url j /\ did_url_parse (did_url_to_string j) = Ok j).
+Proof.
+  intros W H. destruct (wf_url_parts u W) as [p [oq [of [Wp [Es [Ep [Eq Ef]]]]]]].
+  pose proof W as [Ed [Nm [Cm [Ni [Ci _]]]]].
+  unfold did_url_join in H. destruct seg as [|c seg']; [discriminate|].
+  destruct (negb ((c =? 47) || (c =? 63) || (c =? 35))); [discriminate|].
+  rewrite Es in H.
+  destruct (tp_parse_complete _ _ _ _ _ Wp) as [bc [P [Om [Oi [Op [Oq Of]]]]]]. rewrite P in H. cbn [obind] in H.
+  destruct (slices_of_offsets _ _ _ _ _ bc Om Oi Op Oq Of) as [_ [_ [Hbp [Hbq [_ Hb]]]]].
+  apply obind_ok in H as [rc [_ H]]. apply obind_ok in H as [P' [_ H]]. apply obind_ok in H as [Q' [_ H]]. apply obind_ok in H as [F' [_ H]].
+  rewrite Hbp, Hbq in H. cbn [obind] in H.
+  apply obind_ok in H as [up [Sp H]]. apply obind_ok in H as [uq [Sq H]]. apply obind_ok in H as [uf [Sf H]].
+  rewrite Hb in H.
+  rewrite (check_validity_base (u_method u) (u_mid u) _ Nm Cm Ni Ci) in H; cbn [o_method o_mid o_path o_query o_frag]; auto.
+  cbn [obind fst snd] in H. inversion H; subst j; clear H. cbn [u_did u_method u_mid u_path u_query u_frag].
+  split; [symmetry; exact Ed|]. split; [reflexivity|]. split; [reflexivity|].
+  intros NP.
+  assert (wf_url {| u_did := [100; 105; 100; 58] ++ u_method u ++ [58] ++ u_mid u; u_method := u_method u; u_mid := u_mid u; u_path := up; u_query := uq; u_frag := uf |}) as Wj.
+  { unfold did_url_to_string in NP. cbn [u_did u_path u_query u_frag] in NP.
+    apply no_pct_app in NP as [_ NP]. apply no_pct_app in NP as [NPp NP]. apply no_pct_app in NP as [NPq NPf].
+    unfold wf_url. cbn [u_did u_method u_mid u_path u_query u_frag]. repeat split; auto.
+    - intros x Hx. subst up. apply set_path_sound in Sp. destruct Sp as [_ [t [Et V]]]. exists t. split; [exact Et|]. exact (valid_seg_class _ _ NPp V).
+    - intros x Hx. subst uq. apply set_query_sound in Sq. destruct Sq as [t [Et [Nt [V _]]]]. exists t. split; [exact Et|].
+      subst x. cbn [oapp] in NPq. apply no_pct_cons in NPq as [_ NPq]. pose proof (valid_seg_class _ _ NPq V) as C.
+      split; [exact Nt|]. split; [exact C|exact (class_excludes _ _ _ query_not_stop C)].
+    - intros x Hx. subst uf. apply set_fragment_sound in Sf. destruct Sf as [t [Et [Nt [V _]]]]. exists t. split; [exact Et|].
+      subst x. cbn [oapp] in NPf. apply no_pct_cons in NPf as [_ NPf]. split; [exact Nt|exact (valid_seg_class _ _ NPf V)]. }
+  split; [exact Wj|exact (wf_url_reparses _ Wj)].
+Qed.
+
+(* a segment that is not a relative path, query or fragment is refused *)
+Theorem join_rejects_non_relative u seg : (match seg with c :: _ => negb ((c =? 47) || (c =? 63) || (c =? 35)) | [] => true end) = true ->
+  did_url_join u seg = Err EPath.
+Proof. unfold did_url_join. destruct seg as [|c r]; [reflexivity|]. intros ->. reflexivity. Qed.
+
+(* the setters accept the components of a well-formed value *)
+Lemma set_path_of_wf m i p oq of : wf_parts m i p oq of -> set_path (Some p) = Ok (opt_nonempty p).
+Proof.
+  intros W. destruct (wf_p _ _ _ _ _ W) as [->|[t [Ept Hpt]]]; [reflexivity|].
+  assert (forallb char_query p = true) as Hpq by (revert Hpt; apply forallb_imp; exact char_path_query).
+  pose proof (valid_seg_plain char_path p Hpt (sub_no_pct_of_class _ Hpq)) as V.
+  subst p. unfold set_path. change (47 =? 47) with true. rewrite V. reflexivity.
+Qed.
+Lemma set_query_of_class oq : (forall q, oq = Some q -> q <> [] /\ forallb char_query q = true) ->
+  set_query (match oq with Some x => Some (63 :: x) | None => None end) = Ok (option_map (cons 63) oq).
+Proof.
+  destruct oq as [q|]; [|reflexivity]. intros H. destruct (H q eq_refl) as [Nq Cq].
+  unfold set_query. change (strip1 63 (63 :: q)) with q. rewrite (valid_seg_plain char_query q Cq (sub_no_pct_of_class _ Cq)).
+  destruct q; [congruence|reflexivity].
+Qed.
+Lemma set_fragment_of_class of : (forall f, of = Some f -> f <> [] /\ forallb char_query f = true) ->
+  set_fragment (match of with Some x => Some (35 :: x) | None => None end) = Ok (option_map (cons 35) of).
+Proof.
+  destruct of as [f|]; [|reflexivity]. intros H. destruct (H f eq_refl) as [Nf Cf].
+  unfold set_fragment. change (strip1 35 (35 :: f)) with f. rewrite (valid_seg_plain char_query f Cf (sub_no_pct_of_class _ Cf)).
+  destruct f; [congruence|reflexivity].
+Qed.
+
+(* the dominant use, did_url.join("#fragment"): exactly the receiver with its fragment replaced *)
+Theorem join_fragment u f : wf_url u -> f <> [] -> forallb char_query f = true ->
+  did_url_join u (35 :: f) = Ok (with_frag u (Some (35 :: f))).
+Proof.
+  intros W Nf Cf. destruct (wf_url_parts u W) as [p [oq [of [Wp [Es [Ep [Eq Ef]]]]]]].
+  pose proof W as [Ed [Nm [Cm [Ni [Ci _]]]]].
+  unfold did_url_join. change (negb ((35 =? 47) || (35 =? 63) || (35 =? 35))) with false. cbn iota.
+  rewrite Es.
+  destruct (tp_parse_complete _ _ _ _ _ Wp) as [bc [P [Om [Oi [Op [Oq Of]]]]]]. rewrite P. cbn [obind].
+  destruct (slices_of_offsets _ _ _ _ _ bc Om Oi Op Oq Of) as [_ [_ [Hbp [Hbq [_ Hb]]]]].
+  (* the relative reference "#f" *)
+  assert (tp_rel_offsets (35 :: f) = Ok {| o_method := 0; o_mid := 0; o_path := 0; o_query := None; o_frag := Some O |}) as R.
+  { unfold tp_rel_offsets. change (stop_path 35) with true. cbn iota. cbn [skipn]. change (35 =? 35) with true. cbn iota. cbn [negb].
+    rewrite (loop_end f Cf). reflexivity. }
+  rewrite R. cbn [obind].
+  assert (tp_path (35 :: f) {| o_method := 0; o_mid := 0; o_path := 0; o_query := None; o_frag := Some O |} = Ok []) as RP by reflexivity.
+  assert (tp_query (35 :: f) {| o_method := 0; o_mid := 0; o_path := 0; o_query := None; o_frag := Some O |} = Ok None) as RQ by reflexivity.
+  assert (tp_fragment (35 :: f) {| o_method := 0; o_mid := 0; o_path := 0; o_query := None; o_frag := Some O |} = Ok (Some f)) as RF.
+  { unfold tp_fragment, slice_from, slice. cbn [o_frag length Nat.add]. rewrite Nat.leb_refl. cbn [Nat.leb andb obind skipn]. 
+    replace (S (length f) - 1)%nat with (length f) by lia. rewrite firstn_all. reflexivity. }
+  rewrite RP, RQ, RF. cbn [obind]. rewrite Hbp, Hbq. cbn [obind is_nil].
+  rewrite (set_path_of_wf _ _ _ _ _ Wp). cbn [obind].
+  rewrite (set_query_of_class oq) by (intros q Hq; destruct (wf_q _ _ _ _ _ Wp q Hq) as [A [B _]]; auto). cbn [obind].
+  rewrite (set_fragment_of_class (Some f)) by (intros x Hx; inversion Hx; subst x; auto). cbn [obind].
+  rewrite Hb. rewrite (check_validity_base (u_method u) (u_mid u) _ Nm Cm Ni Ci); cbn [o_method o_mid o_path o_query o_frag]; auto.
+  cbn [obind fst snd option_map]. unfold with_frag. rewrite <- Ed, <- Ep, <- Eq. reflexivity.
+Qed.
